@@ -23,7 +23,7 @@ import (
 const (
 	rvCodeBase = 0x10000
 	rvDataBase = 0x20000
-	rvDataLen  = 128
+	rvDataLen  = 96
 )
 
 var rv64ima = rvref.Cfg{XLEN: 64, M: true, A: true}
